@@ -74,7 +74,11 @@ impl AdaptiveFeeTier {
         r is Ok ==> ({ let o = final(ctx.accounts).oracle.data; let t = old(ctx.accounts).adaptive_fee_tier.data;
             &&& o.whirlpool == old(ctx.accounts).whirlpool.k
             &&& o.trade_enable_timestamp == (match trade_enable_timestamp { Some(x) => x, None => 0u64 })
-            &&& o.adaptive_fee_constants.valid_for(t.tick_spacing as int) && is_vars_default(o.adaptive_fee_variables) }), //# C14 C19
+            &&& o.adaptive_fee_constants.valid_for(t.tick_spacing as int) && is_vars_default(o.adaptive_fee_variables)
+            // the pool's constants are the tier's preset, field by field
+            &&& o.adaptive_fee_constants.filter_period == t.filter_period && o.adaptive_fee_constants.decay_period == t.decay_period && o.adaptive_fee_constants.reduction_factor == t.reduction_factor
+            &&& o.adaptive_fee_constants.adaptive_fee_control_factor == t.adaptive_fee_control_factor && o.adaptive_fee_constants.max_volatility_accumulator == t.max_volatility_accumulator
+            &&& o.adaptive_fee_constants.tick_group_size == t.tick_group_size && o.adaptive_fee_constants.major_swap_threshold_ticks == t.major_swap_threshold_ticks }), //# C14 C19
 //@ rewrite /WhirlpoolControlFlags::empty\(\)/ => /flag_empty()/
 //@ rewrite /control_flags \|= WhirlpoolControlFlags::REQUIRE_NON_TRANSFERABLE_POSITION;/ => /control_flags = flag_union(control_flags, FLAG_NTP);/ 2
 //@ rewrite /emit!\(PoolInitialized \{/ => /emit_pool_initialized(PoolInitialized {/
